@@ -465,7 +465,7 @@ def default_id_rebuild(col):
                 txt = jdump(S.adopt(m.project))
                 for k, v in ren.items():
                     txt = txt.replace(k, v)
-                dumps.append(txt)
+                dumps.append(json.dumps(json.loads(txt), sort_keys=True))  # keys were sorted by the generated IDs: sort again by name
             col.evaluations += 3
             col.checks["c09.default-ids"] += 1
             col.transitions.add(hash(("defaultid", sp0["label"], one_worker)))
